@@ -52,11 +52,12 @@ def sizeExt (d : SDef) : Nat := (d.fields.map SField.size).sum
 def sbytes (s : String) : Bytes := s.toUTF8.toList
 
 /-- CRC_EXTRA: crc over "NAME " then, per base field in wire order, "type " "name " [array length byte] -/
+def fieldCrcBytes (f : SField) : Bytes :=
+  sbytes (tyName f.ty ++ " ") ++ sbytes (f.name ++ " ") ++
+    (match f.arr with | some n => [UInt8.ofNat n] | none => [])
+
 def crcExtraInput (d : SDef) : Bytes :=
-  sbytes (d.name ++ " ") ++
-  (stableSortDesc (d.fields.filter (!·.ext))).flatMap (fun f =>
-    sbytes (tyName f.ty ++ " ") ++ sbytes (f.name ++ " ") ++
-    (match f.arr with | some n => [UInt8.ofNat n] | none => []))
+  sbytes (d.name ++ " ") ++ (stableSortDesc (d.fields.filter (!·.ext))).flatMap fieldCrcBytes
 
 def crcExtra (d : SDef) : Nat :=
   let c := crc16 (crcExtraInput d)
@@ -81,7 +82,19 @@ def parseNat (s : String) : Option Nat :=
       | none => none
       | some n => if '0' ≤ c ∧ c ≤ '9' then some (n * 10 + (c.toNat - 48)) else none) (some 0)
 
-def fieldOfGo (i : Nat) (f : Mav.Msg.GoField) : Option SField := do
+/-- a length tag: a decimal number as Go's `strconv` reads it (digits, optionally preceded by `+`) -/
+def digitsL : List Char → Option Nat
+  | [] => none
+  | cs => cs.foldl (fun acc c => match acc with
+      | none => none
+      | some n => if '0' ≤ c ∧ c ≤ '9' then some (n * 10 + (c.toNat - 48)) else none) (some 0)
+
+def parseLen (s : String) : Option Nat :=
+  match s.toList with
+  | '+' :: r => digitsL r
+  | cs => digitsL cs
+
+def fieldOfGoCore (i : Nat) (f : Mav.Msg.GoField) : Option SField := do
   let nm := if f.mavname ≠ "" then f.mavname else snakeLower f.goName
   let ext := f.mavext == "true"
   if f.mavenum ≠ "" then
@@ -94,11 +107,15 @@ def fieldOfGo (i : Nat) (f : Mav.Msg.GoField) : Option SField := do
     if f.isArray then none else
     if f.mavlen == "" then pure { name := nm, ty := .char, arr := none, ext := ext, idx := i }
     else do
-      let n ← parseNat f.mavlen
+      let n ← parseLen f.mavlen
       pure { name := nm, ty := .char, arr := some n, ext := ext, idx := i }
   else do
     let t ← Gen.fieldTypeFromGo f.elemType
     pure { name := nm, ty := t, arr := if f.isArray then some f.arrLen else none, ext := ext, idx := i }
+
+/-- a field reflection cannot set (unexported) is not a field of a message -/
+def fieldOfGo (i : Nat) (f : Mav.Msg.GoField) : Option SField :=
+  if !f.exported then none else fieldOfGoCore i f
 
 def fieldsOfGo : Nat → List Mav.Msg.GoField → Option (List SField)
   | _, [] => some []
